@@ -64,3 +64,18 @@ Proof.
   split; [|vm_compute; auto].
   repeat constructor; cbn; intuition discriminate.
 Qed.
+
+(** obligation over the inventory of constants regenerated from the source on every run (Gen/Consts.v, tools/gen_consts.py): every
+    non-zero floating-point literal of the source is a constant of the model with the same exact value - among them roundPrecision,
+    the 1e8 of [nround8] that the ranking rounds with - every constant the model relies on is still in its package, and the names the
+    model dispatches on are the declared ones (statement: [consts_agree = true], Proofs/ConstSites.v) *)
+From RDM Require Import Gen.Consts Proofs.ConstSites Proofs.ConstAgree.
+Theorem C04_consts_agree_now : consts_agree = true.
+Proof. exact consts_agree_now. Qed.
+Print Assumptions C04_consts_agree_now.
+
+(** the rounding helper of the model multiplies and divides by the classified roundPrecision *)
+Theorem C04_round8_uses_precision_Qc (x : Qc) :
+  nround8 (Num := NumQc) x = Q2Qc (inject_Z (q_round_half_away (this x * inject_Z 100000000)) / inject_Z 100000000).
+Proof. exact (round8_uses_precision_Qc x). Qed.
+Print Assumptions C04_round8_uses_precision_Qc.
